@@ -142,7 +142,10 @@ class _LayoutBase(Prop):
     EOLS = ["\n", "", "\r\n", "\ue003"]
 
     def model_runs(self, tier):
-        return [{"module": "Render", "cfg": f"Render_{tier}.cfg"}]
+        runs = [{"module": "Render", "cfg": f"Render_{tier}.cfg"}]
+        if tier == "thorough":
+            runs.append({"module": "Render", "cfg": "Render_sim.cfg", "simulate": "num=20000", "depth": 14, "export": False, "timeout": 900})
+        return runs
 
     def gens_from_export(self, lines, tier, rnd):
         gens = []
